@@ -578,6 +578,20 @@ def rule_d4(F):
     return r
 
 
+def rule_d5(F):
+    """'Afterwards every function and constant observes that one value': a read of a constant in generated code loads from the
+    constant's own storage on the path that reads it.  A load remembered per item (first textual read fills a table, later reads
+    reuse the temporary) ignores which reads dominate which: on a path that skipped the first read the function sees an undefined
+    value.  Shared with C02.L9."""
+    from . import c02
+    r = c02.rule_l9(F)
+    r.rule = "C14.D5"
+    r.desc = "every read of a constant in generated code loads from the constant's storage on the reading path (no per-item remembered loads)"
+    for v in r.violations:
+        v.rule = "C14.D5"
+    return r
+
+
 def rules(ctx):
     F = ctx["F"]
-    return [rule_d1(F), rule_d2(F), rule_d3(F), rule_d4(F)]
+    return [rule_d1(F), rule_d2(F), rule_d3(F), rule_d4(F), rule_d5(F)]
